@@ -188,8 +188,18 @@ def ctx_case(r, label):
     for letter, i in zip("dcih", order):
         slot_idx[letter] = i
     zero = r.random() < 0.5
-    ctx = ModbusSlaveContext(di=blocks[slot_idx["d"]], co=blocks[slot_idx["c"]],
-                             ir=blocks[slot_idx["i"]], hr=blocks[slot_idx["h"]], zero_mode=zero)
+    # an explicit zero_mode keyword must win over the library-wide default, whatever that default is:
+    # in a quarter of the cases the global Defaults.ZeroMode is flipped while the context is built
+    from pymodbus.constants import Defaults
+    saved_default = Defaults.ZeroMode
+    flipped = r.random() < 0.25
+    try:
+        if flipped:
+            Defaults.ZeroMode = not saved_default
+        ctx = ModbusSlaveContext(di=blocks[slot_idx["d"]], co=blocks[slot_idx["c"]],
+                                 ir=blocks[slot_idx["i"]], hr=blocks[slot_idx["h"]], zero_mode=zero)
+    finally:
+        Defaults.ZeroMode = saved_default
     off = 0 if zero else 1
     ops, outs = [], []
     mapper = {1: "c", 5: "c", 15: "c", 2: "d", 4: "i", 3: "h", 6: "h", 16: "h", 22: "h", 23: "h"}
@@ -232,7 +242,7 @@ def ctx_case(r, label):
     slots = lst("(%s, %s)" % (string(l), nat(i)) for l, i in sorted(slot_idx.items()))
     x = "{| cx_zero := %s; cx_slots := %s; cx_blocks := %s |}" % (boolean(zero), slots, lst(block_term(*s) for s in specs))
     term = "(%s, %s, %s)" % (x, lst(ops), lst(outs))
-    desc = {"zero_mode": zero, "slots": slot_idx, "blocks": [list(s) for s in specs], "ops": ops, "impl_outputs": outs}
+    desc = {"zero_mode": zero, "global_default_flipped_during_construction": flipped, "slots": slot_idx, "blocks": [list(s) for s in specs], "ops": ops, "impl_outputs": outs}
     return Case(term, desc, kind=label, nontrivial=nontriv)
 
 
